@@ -186,6 +186,7 @@ NumAtoms == {Tok("var", AllParams[j], "", 0, 0) : j \in 1..NFormals} \cup {Tok("
             \cup (IF Half THEN {Tok("half", "", "", 0, 0)} ELSE {})
             \cup (IF PiOn THEN {Tok("const", "pi", "", 0, 0)} ELSE {})
 NumOps == {Tok(op, "", "", 0, 1) : op \in UnOn} \cup {Tok(op, "", "", 0, 2) : op \in BinOn}
+          \cup {Tok(op, "", "", 0, 3) : op \in BinOn \cap {"min", "max"}}          \* min / max are variadic
           \cup {Tok("fn", f, "", 0, 1) : f \in FnOn}
           \cup (IF CallOn THEN {Tok("call", "hlp", "", 0, 2)} ELSE {})
 CmpToks == {Tok("cmp", op, "", 0, 2) : op \in CmpOn}
@@ -235,6 +236,7 @@ Parse(ts, pos) ==
                     next |-> c2.next]
               ELSE LET c3 == Parse(ts, c2.next) IN
                    [e |-> CASE tk.k = "cmp" -> Cmp(<<tk.s, tk.s2>>, <<c1.e, c2.e, c3.e>>)
+                            [] tk.k \in {"min", "max"} -> [k |-> tk.k, args |-> <<c1.e, c2.e, c3.e>>]
                             [] tk.k = "ite" -> Ite(c1.e, c2.e, c3.e),
                     next |-> c3.next]
 Parsed == Parse(toks, 1).e
@@ -341,7 +343,14 @@ Reuse ==
 \* (1 < a <= b with a = b = 3 at the second state for the base arguments x, p): exact arithmetic, never fragile.
 Lib == {FnRec(<<"a", "b">>, Bin("sub", A, Bin("mul", Num(2), B))),
         FnRec(<<"a", "b", "c">>, Bin("sub", Bin("mul", A, B), Bin("mul", Num(3), Var("c")))),
-        FnRec(<<"a", "b">>, Ite(Cmp(<<"lt", "le">>, <<Num(1), A, B>>), Bin("add", A, B), Bin("sub", B, Bin("mul", Num(2), A))))}
+        FnRec(<<"a", "b">>, Ite(Cmp(<<"lt", "le">>, <<Num(1), A, B>>), Bin("add", A, B), Bin("sub", B, Bin("mul", Num(2), A)))),
+        \* variadic rows of the export table at the arities they claim: min / max of THREE and FOUR arguments.  With the
+        \* base arguments x, p, q (x = 2, 3, 0; p = 3; q = 1/2) in order, swapped and rotated every position is in turn
+        \* the extremum (q the minimum at two states, x at the third; p / x the maximum), also behind the constants;
+        \* and a comparison chain with three links.
+        FnRec(<<"a", "b", "c">>, Bin("add", Min(<<A, B, Var("c")>>), Bin("mul", Num(2), Max(<<A, B, Var("c")>>)))),
+        FnRec(<<"a", "b", "c">>, Bin("sub", Bin("mul", Num(3), Max(<<Var("c"), Num(2), B, A>>)), Min(<<Num(1), Var("c"), B, A>>))),
+        FnRec(<<"a", "b", "c">>, Ite(Cmp(<<"lt", "le", "gt">>, <<Var("c"), A, B, Num(1)>>), Bin("sub", A, Var("c")), Bin("add", B, Var("c"))))}
 LibBase(f) == IF scheme = "formal" THEN [k \in DOMAIN f.params |-> InvFormal[f.params[k]]]
               ELSE SubSeq(<<"x", "p", "q">>, 1, Len(f.params))
 UseLib ==
@@ -349,7 +358,17 @@ UseLib ==
     /\ \E f \in Lib :
           LET base == LibBase(f) IN
           /\ SeqRange(base) \subseteq Pool
-          /\ \E as \in {base, Swap(base), Rot(base)} : TakeFn(f, as)
+          /\ \E as \in {base, Swap(base), Rot(base)} :
+                LET s == slots[i] IN
+                \/ /\ s.kind = "der"
+                   /\ c' = [c EXCEPT !.der = @ @@ (s.name :> [fn |-> f, args |-> as])]
+                \/ /\ s.kind = "rxn"          \* one fixed stoichiometry: the successor set stays small
+                   /\ c' = [c EXCEPT !.rxn = @ @@ (s.name :> [fn |-> f, args |-> as, st |-> ("x" :> M!Num(R(1, 2)))])]
+    /\ i' = i + 1
+    /\ toks' = <<>>
+    /\ todo' = IF i + 1 <= Len(slots) THEN Fresh ELSE <<>>
+    /\ args' = <<>>
+    /\ UNCHANGED <<slots, scheme>>
 
 \* MULTI-STATEMENT bodies, just outside what the exporter can write (an SBML formula is one expression): an early-return
 \* guard, a local assignment whose name coincides with a model component (p always, y when the model has one), if / else
